@@ -1,19 +1,7 @@
-"""Per-property wording for MANIFEST.json (level text, trusted base, technique)."""
+"""Manifest wording that is not per property."""
 
 HOOK_COMMITS = ["3627163"]
 
 NOT_BUILT = "check not built yet in this session (runtime-monitoring design in DESIGN.md section 6); will be claimed when its workload exists"
 
 NOT_APPLICABLE = {p: NOT_BUILT for p in ["C%02d" % i for i in range(1, 21)]}
-
-CLAIMS = {
-    "C18": dict(
-        text="Runtime monitoring of padding.New*Padding: every (scheme, block size 1..255, length 0..3bs+1) pair is executed and compared "
-             "with an independent reference, the accept set of Unpad is enumerated exhaustively for block sizes <= 4 over a 6-9 symbol "
-             "alphabet and sampled for larger blocks, panics and writes beyond offered capacity are observed. Exhaustive on the finite "
-             "sub-spaces listed in the evidence, exploration elsewhere.",
-        design_ref="DESIGN.md 6 (C18)",
-        note="trusted: harness/ref/pad reference definitions, Go runtime; message contents beyond the listed kinds are sampled",
-        technique="differential reference monitor + exhaustive small accept-set enumeration + panic monitor",
-    ),
-}
